@@ -26,8 +26,17 @@ def run(ctx):
                 g.write(line)
                 nsmall += 1
     out1, out2 = ctx.sub("traces_small"), ctx.sub("traces_all")
-    t1, n1 = h1common.run_h1srv(ctx, drv, small, out1, idle="inloop", cuts="every,bytewise,rand2x8" if ctx.quick else "every,bytewise,rand6x8")
-    t2, n2 = h1common.run_h1srv(ctx, drv, cases, out2, idle="inloop,poller" if not ctx.quick else "poller", cuts="bounds,rand1x5" if ctx.quick else "bounds,rand4x8")
+    # -ref: every fragmented case is also run unfragmented (silently); the End line carries both digests of everything
+    # handlers saw and clients received (raw, un-normalised values) and the trace spec requires them to be equal
+    t1, n1 = h1common.run_h1srv(ctx, drv, small, out1, idle="inloop", cuts="every,bytewise,rand2x8" if ctx.quick else "every,bytewise,rand6x8", extra=["-ref"])
+    t2, n2 = h1common.run_h1srv(ctx, drv, cases, out2, idle="inloop,poller" if not ctx.quick else "poller", cuts="bounds,rand1x5" if ctx.quick else "bounds,rand4x8", extra=["-ref"])
+    # streamed bodies consumed only partly by the handler (C14's scripts): the outcome (probe served or not, what it saw)
+    # must not depend on the fragmentation either
+    stream, ns = lib.gen_cases(ctx, "H1StreamGen", "H1StreamGen_quick.cfg", out_name="stream.ndjson", timeout=1800)
+    t3, n3 = h1common.run_h1srv(ctx, drv, stream, ctx.sub("traces_stream"), modes="streaming", idle="inloop", cuts="bounds,rand1x6" if ctx.quick else "bounds,bytewise,rand4x8",
+                                extra=["-ref", "-exact", "-maxwire", "400"])
+    t2 = t2 + t3
+    n2 += n3
     res = lib.validate(ctx, "H1ServerTrace", "H1ServerTrace.cfg", t1 + t2, timeout=1800)
     lib.handle_rejections(ctx, res, lambda cl: rerun(ctx, cl))
 
@@ -52,6 +61,13 @@ def run(ctx):
     big = sorted(t1, key=os.path.getsize, reverse=True)
     lib.self_test(ctx, "H1ServerTrace", "H1ServerTrace.cfg", big, change_value, name="header value differs under one fragmentation", ncases=50)
     lib.self_test(ctx, "H1ServerTrace", "H1ServerTrace.cfg", big, lose_byte, name="one body byte lost at a cut", ncases=400)
+    def digest_differs(recs):
+        for r in recs:
+            if r["ev"] == "End" and r.get("ref"):
+                r["digest"] = "0" * 40
+                return recs
+        return recs
+    lib.self_test(ctx, "H1ServerTrace", "H1ServerTrace.cfg", big, digest_differs, name="observations differ from the unfragmented run (raw digest)", ncases=50)
 
     # client direction: response scripts read by the real client under fragmentations (built with C11)
     from . import c11
